@@ -72,6 +72,20 @@ def typeorder(t1, t2):
         return typeorder(t2, t1).opposite()
 
     if o1:
+        if (
+            o1 is type
+            and not o2
+            and isinstance(t2, type)
+            and t2 is not type
+            and issubclass(t2, type)
+        ):
+            # type[C] against a metaclass: more specific than it when C is
+            # one of its instances (see subclasscheck), unrelated otherwise
+            args1 = get_args(t1)
+            if len(args1) == 1:
+                return (
+                    Order.LESS if isinstance(args1[0], t2) else Order.NONE
+                )
         if not o2:
             order = typeorder(o1, t2)
             if order is order.SAME:
